@@ -1,6 +1,7 @@
 (** C07 - the codec configuration in the file is exactly that of the submitted stream. *)
 From Muxide Require Export Model.Base Model.Codec Model.Boxes Model.Frag Spec.NalSplit Spec.Headers Spec.HeaderChecks
-  Proofs.HeaderProofs.
+  Proofs.HeaderProofs Proofs.Av1Proofs.
+From Muxide Require Export Spec.Av1Syntax.
 Open Scope N_scope.
 
 (* H.264: the extracted configuration is the FIRST SPS and FIRST PPS of the declarative split,
@@ -79,3 +80,48 @@ Print Assumptions C07_dOps_stereo.
 Theorem C07_fragmented_av1C_refuted : forall c, strict_av1c (payload_of (build_av1c_fmp4 c)) = None.
 Proof. exact av1c_fmp4_refuted. Qed.
 Print Assumptions C07_fragmented_av1C_refuted.
+
+(* AV1: every conformant (valid, non-monochrome) sequence header - all branches of the header
+   syntax of AV1 5.5, any operating points, timing / decoder-model info, colour configuration -
+   is accepted, and the configuration carries the OBU itself with matching fields *)
+Theorem C07_av1_parser_accepts_conformant_headers : forall (s : seq_hdr) (ext : option N),
+  valid_seq s = true -> cc_mono_chrome (sh_color s) = false ->
+  (match ext with Some e => e < 256 | None => True end) ->
+  exists c, extract_av1_config (seq_obu ext s) = Some c /\
+    av1_sequence_header c = seq_obu ext s /\
+    av1_seq_profile c = sh_seq_profile s /\
+    av1_seq_level_idx c = seq_level0 s /\
+    av1_seq_tier c = seq_tier0 s /\
+    av1_high_bitdepth c = cc_high_bitdepth (sh_color s) /\
+    av1_twelve_bit c = cc_twelve_bit (sh_color s) /\
+    av1_monochrome c = false /\
+    av1_subsampling_x c = cc_subsampling_x (sh_color s) /\
+    av1_subsampling_y c = cc_subsampling_y (sh_color s) /\
+    av1_chroma_sample_position c = cc_chroma_sample_position (sh_color s).
+Proof. exact av1_parser_accepts_conformant_headers. Qed.
+Print Assumptions C07_av1_parser_accepts_conformant_headers.
+
+Theorem C07_av1_parser_skips_other_obus : forall (s : seq_hdr) (pre : list (N * bytes)) (post : bytes),
+  valid_seq s = true -> cc_mono_chrome (sh_color s) = false ->
+  Forall (fun tp => fst tp < 16 /\ fst tp <> 1 /\ len (snd tp) < 72057594037927936) pre ->
+  extract_av1_config (concat (map (fun tp => plain_obu (fst tp) (snd tp)) pre) ++ seq_obu None s ++ post) =
+  extract_av1_config (seq_obu None s ++ post)
+  /\ (forall c, extract_av1_config (seq_obu None s) = Some c -> exists c',
+        extract_av1_config (seq_obu None s ++ post) = Some c' /\
+        av1_seq_profile c' = av1_seq_profile c /\ av1_seq_level_idx c' = av1_seq_level_idx c /\
+        av1_sequence_header c' = av1_sequence_header c).
+Proof. exact av1_parser_skips_other_obus. Qed.
+Print Assumptions C07_av1_parser_skips_other_obus.
+
+(* recorded finding KF-C07-2: monochrome headers get a wrong chroma_sample_position, and some
+   are rejected outright *)
+Theorem C07_av1_monochrome_chroma_position_refuted :
+  exists s, valid_seq s = true /\ cc_mono_chrome (sh_color s) = true /\
+            exists c, extract_av1_config (seq_obu None s) = Some c /\ av1_chroma_sample_position c <> 0.
+Proof. exact av1_monochrome_chroma_position_refuted. Qed.
+Print Assumptions C07_av1_monochrome_chroma_position_refuted.
+
+Theorem C07_av1_monochrome_header_rejected_refuted :
+  exists s, valid_seq s = true /\ cc_mono_chrome (sh_color s) = true /\ extract_av1_config (seq_obu None s) = None.
+Proof. exact av1_monochrome_header_rejected. Qed.
+Print Assumptions C07_av1_monochrome_header_rejected_refuted.
